@@ -10,6 +10,10 @@ type CheckWhen struct {
 }
 
 func (y CheckWhen) CheckContainerPostConstraints(r ChildRequest, s *Selection) (bool, error) {
+	if meta.IsList(r.Meta) {
+		// 'when' on a list is about each item, see CheckListPostConstraints
+		return true, nil
+	}
 	return y.check(s, r.Meta)
 }
 
@@ -17,8 +21,9 @@ func (y CheckWhen) CheckFieldPreConstraints(r *FieldRequest, hnd *ValueHandle) (
 	return y.check(r.Selection, r.Meta)
 }
 
-func (y CheckWhen) CheckListPostConstraints(r ListRequest, child *Selection, key []val.Value) (bool, error) {
-	return y.check(child, r.Meta)
+func (y CheckWhen) CheckListPostConstraints(r ListRequest, child *Selection, key []val.Value) (bool, bool, error) {
+	visible, err := y.check(child, r.Meta)
+	return true, visible, err
 }
 
 func (y CheckWhen) check(s *Selection, m meta.Meta) (bool, error) {
